@@ -77,10 +77,19 @@ def enum_stream(run, n, bit_ok):
         if not bit_ok and any(t.flags.get("bit") for t in spec.targets):
             continue            # K_bit_map open: every -bit output fails to compile (replayed as a known finding)
         runs = []
-        byname = {t.tname: t for t in spec.targets}
-        for args, types in spec.runs:
-            data = [("enum", "GEnumSpec %s %s %s" % (enumgen.coq_pkg(spec), cs(T), enumgen.coq_flags(byname[T].flags)))
-                    for T in types]
+        cpkg = enumgen.coq_pkg(spec)
+        for args, _types in spec.runs:
+            # the types the command line selects (the model decides which of them have constants and get a file)
+            sel = [a for a in args if a.startswith(("-type=", "-file="))][0]
+            if sel.startswith("-file="):
+                fn = sel[6:]
+                types = [it[1] for f in spec.files if f.name == fn for it in f.items if it[0] == "type"]
+            elif sel == "-type=*":
+                types = [it[1] for f in sorted(spec.files, key=lambda f: f.name) for it in f.items if it[0] == "type"]
+            else:
+                types = sel[6:].split(",")
+            fl = {k: ("-" + k) in args for k in ("bit", "json", "text", "sql", "gorm")}
+            data = [("enum", "GEnumSpec %s %s %s" % (cpkg, cs(T), enumgen.coq_flags(fl))) for T in types]
             runs.append((args, data))
         res.append(Pkg(spec.name, enumgen.render_go(spec), runs, spec.features | {"cmd-enum"}))
     return res
